@@ -30,6 +30,9 @@ theorem sentBy_reverse (w : List WEv) (t n : Nat) : sentBy w.reverse t n = sentB
 mention only the wire, the socket queue and the session sequence. -/
 def HolderInv (w : List WEv) (sock : List Reply) (ss : Nat) (t : Nat) (th : Thr) : Prop :=
   match th.pc with
+  | .lkLoad => (monOf w).opn = none ∧ sock = [] ∧ (∀ a, (monOf w).last = some a → a = ss) ∧ ss ≤ 0xffffffff
+  | .lkStore => (monOf w).opn = none ∧ sock = [] ∧ (∀ a, (monOf w).last = some a → a = ss) ∧ ss ≤ 0xffffffff
+  | .lkHdr => (monOf w).opn = none ∧ sock = [] ∧ (∀ a, (monOf w).last = some a → a = ss) ∧ ss ≤ 0xffffffff
   | .actLoad => (monOf w).opn = none ∧ sock = [] ∧ (∀ a, (monOf w).last = some a → a = ss) ∧ ss ≤ 0xffffffff
   | .ssLoad => (monOf w).opn = none ∧ sock = [] ∧ (∀ a, (monOf w).last = some a → a = ss) ∧ ss ≤ 0xffffffff
   | .ssStore => (monOf w).opn = none ∧ sock = [] ∧ (∀ a, (monOf w).last = some a → a = ss) ∧ ss ≤ 0xffffffff
